@@ -1,0 +1,10 @@
+//go:build verif
+
+package h2
+
+// NewProcessorsForVerif builds a Processors pair from caller-supplied sinks.
+// Used by the runtime verification harness to drive stream processor
+// factories without a relay.
+func NewProcessorsForVerif(cToS, sToC Processor) *Processors {
+	return &Processors{cToS: cToS, sToC: sToC}
+}
